@@ -146,21 +146,47 @@ pub fn gen_browse_world(prop: &str, flavor: Flavor, seed: u64, index: u64, tier:
             let mut t_ev = t + 500 + rng.below(4000);
             let n_ev = rng.below(4);
             let mut cur = ir.clone();
+            // how updates travel: alone, or inside the announcement of another (non-browsed) service type of the
+            // same host, whose PTR leads the answer section
+            let foreign_wrap = |rng: &mut Rng, recs: &[Rec], host: &Name| -> Msg {
+                if rng.below(3) != 0 {
+                    return announce(recs);
+                }
+                let oty = Name::from_dotted("_workstation._tcp.local.");
+                let oinst = Name::from_dotted("ws._workstation._tcp.local.");
+                let mut m = Msg::response();
+                m.answers.push(Rec::ptr(&oty, &oinst, 4500));
+                m.answers.push(Rec::srv(&oinst, host, 9, 120, true));
+                for r in recs {
+                    if rng.bool() {
+                        m.answers.push(r.clone());
+                    } else {
+                        m.additionals.push(r.clone());
+                    }
+                }
+                m
+            };
             for _ in 0..n_ev {
+                // sometimes an update follows the previous packet within a second (no displacement by cache-flush then),
+                // or comes without the cache-flush bit
+                if rng.below(5) == 0 {
+                    t_ev = t + 50 + rng.below(900);
+                }
+                let fl = rng.below(6) != 0;
                 match rng.below(if flavor == Flavor::C04 { 3 } else { 8 }) {
                     0 => {
                         // update port with cache-flush SRV
                         let (tgt, port) = srv_target(&cur.srv).map(|(t, p)| (t.clone(), p)).unwrap();
-                        let new_srv = Rec::srv(&cur.inst, &tgt, port + 100, cur.srv.ttl, true);
-                        s.op(t_ev, Op::PeerSend { p, v4: true, sport: 5353, msg: announce(&[new_srv.clone()]), to: Dest::Mcast });
+                        let new_srv = Rec::srv(&cur.inst, &tgt, port + 100, cur.srv.ttl, fl);
+                        s.op(t_ev, Op::PeerSend { p, v4: true, sport: 5353, msg: foreign_wrap(&mut rng, &[new_srv.clone()], &cur.host), to: Dest::Mcast });
                         all_recs.retain(|r| r != &cur.srv);
                         all_recs.push(new_srv.clone());
                         cur.srv = new_srv;
                     }
                     1 => {
                         // update TXT
-                        let new_txt = Rec::txt(&cur.inst, wire::txt_encode(&[("k".into(), Some(format!("u{}", t_ev).into_bytes()))]), cur.txt.ttl, true);
-                        s.op(t_ev, Op::PeerSend { p, v4: true, sport: 5353, msg: announce(&[new_txt.clone()]), to: Dest::Mcast });
+                        let new_txt = Rec::txt(&cur.inst, wire::txt_encode(&[("k".into(), Some(format!("u{}", t_ev).into_bytes()))]), cur.txt.ttl, fl);
+                        s.op(t_ev, Op::PeerSend { p, v4: true, sport: 5353, msg: foreign_wrap(&mut rng, &[new_txt.clone()], &cur.host), to: Dest::Mcast });
                         all_recs.retain(|r| r != &cur.txt);
                         all_recs.push(new_txt.clone());
                         cur.txt = new_txt;
@@ -169,7 +195,11 @@ pub fn gen_browse_world(prop: &str, flavor: Flavor, seed: u64, index: u64, tier:
                         // address change with cache-flush
                         let new_ip = format!("192.168.{}.{}", 1 + seg, 150 + rng.below(50));
                         let new_a = Rec::a(&cur.host, ip4(&new_ip), cur.addrs[0].ttl, true);
-                        s.op(t_ev, Op::PeerSend { p, v4: true, sport: 5353, msg: announce(&[new_a.clone()]), to: Dest::Mcast });
+                        s.op(t_ev, Op::PeerSend { p, v4: true, sport: 5353, msg: foreign_wrap(&mut rng, &[new_a.clone()], &cur.host), to: Dest::Mcast });
+                        if rng.bool() {
+                            // a later TXT-only refresh triggers a new event after the displaced address must be gone
+                            s.op(t_ev + 1100 + rng.below(3000), Op::PeerSend { p, v4: true, sport: 5353, msg: announce(&[cur.txt.clone()]), to: Dest::Mcast });
+                        }
                         for a in cur.addrs.iter().filter(|a| a.ty == wire::T_A) {
                             all_recs.retain(|r| r != a);
                         }
@@ -309,6 +339,23 @@ impl Property for C03 {
                     format!("ServiceResolved({}) at t={} shows host={} port={} but no SRV with these values is live in the receive model; SRV history: {:?}", r.fullname, t, r.host, r.port, seen),
                 );
             }
+            // R1b: "as the network last advertised it": when another SRV of the instance first arrived after every
+            // arrival of the SRV shown, and is certainly live, the event must show that one
+            if ok {
+                let shown: Vec<usize> = srvs.iter().copied().filter(|&i| matches!(&m.recs[i].rec.rdata, RData::Srv { port, target, .. } if *port == r.port && target.eq_ci(&host))).collect();
+                let shown_last = shown.iter().flat_map(|&i| m.recs[i].arrivals.iter().filter(|a| a.step <= e.step).map(|a| a.step)).max();
+                if let Some(sl_step) = shown_last {
+                    for &k in srvs.iter().filter(|k| !shown.contains(k)) {
+                        let first_certain = m.recs[k].arrivals.iter().filter(|a| a.step <= e.step).map(|a| a.step).min();
+                        let all_certain = m.recs[k].arrivals.iter().filter(|a| a.step <= e.step).all(|a| a.certain);
+                        if let Some(fk) = first_certain {
+                            if fk > sl_step && fk < e.step && all_certain && m.live_at_s(k, t, e.step, None, Mode::Definitely, sl + 1001) {
+                                j.fail("C03-R1", format!("ServiceResolved({}) at t={} shows host={} port={} from an SRV last received in step {} although a different SRV ({:?}) was received later (step {}) and is still live: the event does not describe the instance as last advertised", r.fullname, t, r.host, r.port, sl_step, m.recs[k].rec.rdata, fk));
+                            }
+                        }
+                    }
+                }
+            }
             // R2: addresses
             for a in &r.addrs {
                 let ty = if a.ip.is_ipv4() { wire::T_A } else { wire::T_AAAA };
@@ -339,6 +386,21 @@ impl Property for C03 {
                 });
                 if !ok {
                     j.fail("C03-R3", format!("ServiceResolved({}) at t={}: TXT properties {:?} do not equal the reference decoding of any live TXT record received for it", r.fullname, t, r.txt));
+                } else {
+                    // R3b: the most recently advertised TXT
+                    let shown: Vec<usize> = txts.iter().copied().filter(|&i| matches!(&m.recs[i].rec.rdata, RData::Txt(b) if wire::txt_decode_unique(b) == r.txt)).collect();
+                    let shown_last = shown.iter().flat_map(|&i| m.recs[i].arrivals.iter().filter(|a| a.step <= e.step).map(|a| a.step)).max();
+                    if let Some(sl_step) = shown_last {
+                        for &k in txts.iter().filter(|k| !shown.contains(k)) {
+                            let fk = m.recs[k].arrivals.iter().filter(|a| a.step <= e.step).map(|a| a.step).min();
+                            let all_certain = m.recs[k].arrivals.iter().filter(|a| a.step <= e.step).all(|a| a.certain);
+                            if let Some(fk) = fk {
+                                if fk > sl_step && fk < e.step && all_certain && m.live_at_s(k, t, e.step, None, Mode::Definitely, sl + 1001) {
+                                    j.fail("C03-R3", format!("ServiceResolved({}) at t={} shows TXT {:?} last received in step {} although a different TXT was received later (step {}) and is still live", r.fullname, t, r.txt, sl_step, fk));
+                                }
+                            }
+                        }
+                    }
                 }
             }
             // R5: subtype
@@ -662,8 +724,10 @@ impl Property for C05 {
                         }
                         // ended within [t - sl - 1000, t]
                         let lo_e = t.saturating_sub(sl + 1000);
-                        m.intervals(i, None, Mode::Definitely).iter().any(|&(_, e)| e <= t + 1 && e >= lo_e)
-                            || m.intervals(i, None, Mode::Possibly).iter().any(|&(_, e)| e <= t + 1 + sl && e >= lo_e)
+                        // (addresses: per receiving interface, so that cache-flush displacement is applied in both modes)
+                        let ifx = if matches!(h.rec.ty, wire::T_A | wire::T_AAAA) { h.arrivals.first().map(|a| a.if_index) } else { None };
+                        m.intervals(i, ifx, Mode::Definitely).iter().any(|&(_, e)| e <= t + 1 && e >= lo_e)
+                            || m.intervals(i, ifx, Mode::Possibly).iter().any(|&(_, e)| e <= t + 1 + sl && e >= lo_e)
                     });
                     if all_live(lo) && all_live(t) && !something_ended {
                         // is a related record inside the last second of its life? (the crate treats such a
@@ -774,8 +838,13 @@ impl Property for C05 {
                 predict.sort();
                 predict.dedup();
                 for (e, why) in predict {
-                    // the instance must have been reported before e and not already removed with nothing reported since
-                    let rep_before = reported.iter().any(|&t| t <= e);
+                    // the instance must have been reported before e and not already removed with nothing reported since;
+                    // the end of an SRV or address only concerns an instance that had been reported *resolved*
+                    let rep_before = if matches!(why, "goodbye" | "ptr-expiry") {
+                        reported.iter().any(|&t| t <= e)
+                    } else {
+                        evs.iter().any(|x| x.t <= e && matches!(&x.ev, EvKind::Resolved(r) if r.fullname == inst_s))
+                    };
                     if !rep_before {
                         continue;
                     }
